@@ -43,3 +43,11 @@ func NewVerifClient(
 		lightClient: lazy,
 	}, nil
 }
+
+// NewVerifPrunedStore wraps a light block store the way the production client
+// does (store.go), so that the verification harness exercises the wrapper the
+// stateless Core's latest trusted height comes from. Only compiled with the
+// `verif` build tag.
+func NewVerifPrunedStore(s cmtlightstore.Store) cmtlightstore.Store {
+	return newPrunedStore(s, storeHighWatermark, storeLowWatermark)
+}
